@@ -230,12 +230,33 @@ const harnessTmpl = `package {{.Name}}
 import (
 	"bytes"
 	"fmt"
+	"io"
 	"os"
+	"testing/iotest"
 
 	"vb/mon"
 )
 
 var _ = bytes.NewReader
+
+// verifReader hands the input to ParseReader through readers with different, legal behaviours:
+// all at once, the last bytes together with io.EOF, one byte per Read, half of the request per Read.
+func verifReader(in []byte) io.Reader {
+	r := io.Reader(bytes.NewReader(in))
+	switch len(in) % 4 {
+	case 1:
+		return iotest.DataErrReader(r)
+	case 2:
+		return iotest.OneByteReader(r)
+	case 3:
+		return iotest.HalfReader(r)
+	}
+	return r
+}
+{{if not .Optimized}}
+// verifReusedStats: one Stats value that a program hands to every Parse call (sequential use only).
+var verifReusedStats Stats
+{{end}}
 
 func init() { mon.Register("{{.Name}}", verifRun) }
 
@@ -282,10 +303,11 @@ func verifInitCall() *mon.Result {
 
 func verifRun(c *mon.Case) *mon.Result {
 	if c.InitProbe {
-		r := verifInitCall() // the same call again, now that initialisation is over
+		// what the call returned during initialisation, and the same call again now that it is over
+		r := *verifInitRes
 		r.ID = c.ID
-		r.Init = verifInitRes
-		return r
+		r.Init = verifInitCall()
+		return &r
 	}
 	if c.TableOpts > 0 && c.TableOpts <= len(verifTable) {
 		res := &mon.Result{ID: c.ID}
@@ -345,6 +367,10 @@ func verifRun(c *mon.Case) *mon.Result {
 		st.ExprCnt = c.StatsPre
 		opts = append(opts, Statistics(&st, "no match"))
 	}
+	if c.StatsReused {
+		verifReusedStats.ExprCnt = 0
+		opts = append(opts, Statistics(&verifReusedStats, "no match"))
+	}
 	if c.DebugQuiet {
 		opts = append(opts, Debug(true))
 	}
@@ -381,7 +407,7 @@ func verifRun(c *mon.Case) *mon.Result {
 			}
 		}()
 		if c.Reader {
-			val, err = ParseReader(c.File, bytes.NewReader(in), opts...)
+			val, err = ParseReader(c.File, verifReader(in), opts...)
 		} else {
 			val, err = Parse(c.File, in, opts...)
 		}
